@@ -95,3 +95,235 @@ void harness(void)
     VERIF_CANARY();
 }
 #endif
+
+/* ---- insert_at: four behaviours (disjoint preconditions; union = every argument) ---------- */
+/*@unit
+name: array_insert_at.null
+define: U_INSERT_AT, B_NULL
+src: array.c
+enforce: spif_array_insert_at
+backend: sat
+flags: --slice-formula
+*/
+/*@unit
+name: array_insert_at.neg
+define: U_INSERT_AT, B_NEG
+src: array.c
+enforce: spif_array_insert_at
+backend: sat
+flags: --slice-formula
+*/
+/*@unit
+name: array_insert_at.mid
+define: U_INSERT_AT, B_MID
+src: array.c
+enforce: spif_array_insert_at
+backend: sat
+flags: --slice-formula
+*/
+/*@unit
+name: array_insert_at.grow
+define: U_INSERT_AT, B_GROW
+src: array.c
+enforce: spif_array_insert_at
+backend: sat
+flags: --slice-formula
+*/
+#ifdef U_INSERT_AT
+/* insert_at(x, i), n = normalised position:
+ *   x == NULL or n < 0 : refused (FALSE), nothing changes;
+ *   0 <= n <= len      : x stored at n, elements [n,len) move up by one;
+ *   n > len            : slots [len,n) become NULL placeholders, x stored at n, new length n+1.
+ * (elements are tracked by their ORIGINAL slot vg_k: the realloc model keeps slot vg_k only) */
+#if defined(B_NULL)
+# define BEHAV (obj == (spif_obj_t) NULL)
+#elif defined(B_NEG)
+# define BEHAV (obj != (spif_obj_t) NULL && NORM(idx, self->len) < 0)
+#elif defined(B_MID)
+# define BEHAV (obj != (spif_obj_t) NULL && NORM(idx, self->len) >= 0 && NORM(idx, self->len) <= self->len)
+#else
+# define BEHAV (obj != (spif_obj_t) NULL && NORM(idx, self->len) > self->len)
+#endif
+#define ON NORM(idx, OLD_LEN(self))
+static spif_bool_t spif_array_insert_at(spif_array_t self, spif_obj_t obj, spif_listidx_t idx)
+__CPROVER_requires(ARRAY_VALID(self) && self->len < VCAPL && idx < VCAPL && BEHAV)
+__CPROVER_requires(SNAP_ITEM(self, vg_k, vg_old_k))
+__CPROVER_assigns(ARRAY_FRAME(self))
+__CPROVER_frees(self->items)
+__CPROVER_ensures(ARRAY_POST(self))
+__CPROVER_ensures(!(obj == (spif_obj_t) NULL || ON < 0) || (__CPROVER_return_value == FALSE && ARRAY_UNCHANGED(self)))
+__CPROVER_ensures((obj == (spif_obj_t) NULL || ON < 0) || __CPROVER_return_value == TRUE)
+/* in range */
+__CPROVER_ensures((obj == (spif_obj_t) NULL || ON < 0 || ON > OLD_LEN(self)) ||
+                  (self->len == OLD_LEN(self) + 1 && self->items[ON] == obj &&
+                   (vg_k >= (size_t) OLD_LEN(self) || self->items[((long) vg_k < ON) ? vg_k : vg_k + 1] == vg_old_k)))
+/* growth with placeholders */
+__CPROVER_ensures((obj == (spif_obj_t) NULL || ON <= OLD_LEN(self)) ||
+                  (self->len == ON + 1 && self->items[ON] == obj &&
+                   (vg_k >= (size_t) ON || self->items[vg_k] == (((long) vg_k < OLD_LEN(self)) ? vg_old_k : (spif_obj_t) NULL))))
+;
+void harness(void)
+{
+    spif_array_t self; spif_obj_t obj = nondet_ptr(); spif_listidx_t idx; w_idx = idx;
+    spif_array_insert_at(self, obj, idx);
+    VERIF_CANARY();
+}
+#endif
+
+/*@unit
+name: array_prepend
+define: U_PREPEND
+src: array.c
+enforce: spif_array_prepend
+backend: sat
+flags: --slice-formula
+*/
+#ifdef U_PREPEND
+static spif_bool_t spif_array_prepend(spif_array_t self, spif_obj_t obj)
+__CPROVER_requires(ARRAY_VALID(self) && self->len < VCAPL && SNAP_ITEM(self, vg_k, vg_old_k))
+__CPROVER_assigns(ARRAY_FRAME(self))
+__CPROVER_frees(self->items)
+__CPROVER_ensures(ARRAY_POST(self))
+__CPROVER_ensures(obj != (spif_obj_t) NULL || (__CPROVER_return_value == FALSE && ARRAY_UNCHANGED(self)))
+__CPROVER_ensures(obj == (spif_obj_t) NULL ||
+                  (__CPROVER_return_value == TRUE && self->len == OLD_LEN(self) + 1 && self->items[0] == obj &&
+                   (vg_k >= (size_t) OLD_LEN(self) || self->items[vg_k + 1] == vg_old_k)))
+;
+void harness(void) { spif_array_t self; spif_obj_t obj = nondet_ptr(); spif_array_prepend(self, obj); VERIF_CANARY(); }
+#endif
+
+/*@unit
+name: array_reverse
+define: U_REVERSE
+src: array.c
+enforce: spif_array_reverse
+backend: sat
+loops: 1
+*/
+#ifdef U_REVERSE
+static spif_bool_t spif_array_reverse(spif_array_t self)
+__CPROVER_requires(ARRAY_VALID(self) && SNAP_ITEM(self, vg_k, vg_old_k))
+__CPROVER_requires(vg_k >= (size_t) self->len || self->items[(size_t) self->len - 1 - vg_k] == vg_old_k2)
+__CPROVER_assigns(self->items != NULL: __CPROVER_object_whole(self->items))
+__CPROVER_ensures(__CPROVER_return_value == TRUE && ARRAY_POST(self))
+__CPROVER_ensures(self->len == OLD_LEN(self) && self->items == OLD_ITEMS(self))
+__CPROVER_ensures(vg_k >= (size_t) self->len || self->items[vg_k] == vg_old_k2)
+;
+void harness(void) { spif_array_t self; spif_array_reverse(self); VERIF_CANARY(); }
+#endif
+
+/*@unit
+name: array_to_array
+define: U_TO_ARRAY
+src: array.c
+enforce: spif_array_to_array
+backend: sat
+loops: 1
+*/
+#ifdef U_TO_ARRAY
+/* result: caller-owned fresh block of len slots equal to the view; the container is untouched */
+static spif_obj_t *spif_array_to_array(spif_array_t self)
+__CPROVER_requires(ARRAY_VALID(self))
+__CPROVER_assigns()
+__CPROVER_ensures(__CPROVER_is_fresh(__CPROVER_return_value, ASZ(self->len)))
+__CPROVER_ensures(vg_k >= (size_t) self->len || __CPROVER_return_value[vg_k] == self->items[vg_k])
+;
+void harness(void) { spif_array_t self; spif_array_to_array(self); VERIF_CANARY(); }
+#endif
+
+/*@unit
+name: array_index
+define: U_INDEX
+src: array.c
+enforce: spif_array_index
+backend: sat
+loops: 1
+*/
+#ifdef U_INDEX
+/* index(x): the FIRST position whose slot matches x, -1 if none (pair model of env_array.h) */
+static spif_listidx_t spif_array_index(spif_array_t self, spif_obj_t obj)
+__CPROVER_requires(ARRAY_VALID(self) && SNAP_ITEM(self, vg_k, vg_old_k))
+__CPROVER_requires(vg_ca == vg_old_k && vg_cb == obj && VA_CMP_OK(vg_cr))
+__CPROVER_assigns()
+__CPROVER_ensures(__CPROVER_return_value >= -1 && __CPROVER_return_value < self->len)
+__CPROVER_ensures(__CPROVER_return_value != -1 || vg_k >= (size_t) self->len || !VA_MATCH_INDEX(obj))
+__CPROVER_ensures(__CPROVER_return_value == -1 || vg_k != (size_t) __CPROVER_return_value || VA_MATCH_INDEX(obj))
+__CPROVER_ensures(__CPROVER_return_value == -1 || vg_k >= (size_t) __CPROVER_return_value || !VA_MATCH_INDEX(obj))
+;
+void harness(void) { spif_array_t self; spif_obj_t obj = nondet_ptr(); spif_array_index(self, obj); VERIF_CANARY(); }
+#endif
+
+/*@unit
+name: array_list_find
+define: U_LIST_FIND
+src: array.c
+enforce: spif_array_list_find
+backend: sat
+loops: 1
+*/
+/*@unit
+name: array_list_contains
+define: U_LIST_CONTAINS, VERIF_REAL_STDIO
+src: array.c
+enforce: spif_array_list_contains
+replace: time
+funcs: spif_array_list_find
+backend: sat
+loops: 1
+*/
+#if defined(U_LIST_FIND) || defined(U_LIST_CONTAINS)
+/* find(x): the first stored element equal to x (placeholders skipped), NULL iff none / x NULL.
+ * vg_exit = position of the element handed back. */
+#define FIND_PRE  (ARRAY_VALID(self) && SNAP_ITEM(self, vg_k, vg_old_k) && vg_ca == vg_old_k && vg_cb == obj && VA_CMP_OK(vg_cr))
+#define FIND_NONE (vg_k >= (size_t) self->len || obj == (spif_obj_t) NULL || !VA_MATCH_FIND)
+#define FIND_SOME (obj != (spif_obj_t) NULL && vg_exit < (size_t) self->len && \
+                   (vg_k != vg_exit || VA_MATCH_FIND) && (vg_k >= vg_exit || !VA_MATCH_FIND))
+#ifdef U_LIST_FIND
+static spif_obj_t spif_array_list_find(spif_array_t self, spif_obj_t obj)
+__CPROVER_requires(FIND_PRE)
+__CPROVER_assigns(vg_exit)
+__CPROVER_ensures(__CPROVER_return_value != (spif_obj_t) NULL || FIND_NONE)
+__CPROVER_ensures(__CPROVER_return_value == (spif_obj_t) NULL ||
+                  (FIND_SOME && (vg_k != vg_exit || __CPROVER_return_value == vg_old_k)))
+;
+void harness(void) { spif_array_t self; spif_obj_t obj = nondet_ptr(); spif_array_list_find(self, obj); VERIF_CANARY(); }
+#else
+static spif_bool_t spif_array_list_contains(spif_array_t self, spif_obj_t obj)
+__CPROVER_requires(FIND_PRE)
+__CPROVER_assigns(vg_exit)
+__CPROVER_ensures(__CPROVER_return_value == TRUE || __CPROVER_return_value == FALSE)
+__CPROVER_ensures(__CPROVER_return_value != FALSE || FIND_NONE)
+__CPROVER_ensures(__CPROVER_return_value != TRUE || FIND_SOME)
+;
+void harness(void) { spif_array_t self; spif_obj_t obj = nondet_ptr(); spif_array_list_contains(self, obj); VERIF_CANARY(); }
+#endif
+#endif
+
+/*@unit
+name: array_remove
+define: U_REMOVE
+src: array.c
+enforce: spif_array_remove
+backend: sat
+flags: --slice-formula
+loops: 1
+*/
+#ifdef U_REMOVE
+/* remove(x): takes out the FIRST element equal to x and hands it back (not freed); the elements
+ * behind it move down; NULL and no change if there is none or x is NULL.  vg_exit = its position. */
+static spif_obj_t spif_array_remove(spif_array_t self, spif_obj_t item)
+__CPROVER_requires(ARRAY_VALID(self) && SNAP_ITEM(self, vg_k, vg_old_k) && SNAP_ITEM(self, vg_k + 1, vg_old_k2))
+__CPROVER_requires(vg_ca == item && vg_cb == vg_old_k && VA_CMP_OK(vg_cr))
+__CPROVER_assigns(ARRAY_FRAME(self); vg_exit)
+__CPROVER_frees(self->items)
+__CPROVER_ensures(ARRAY_POST(self))
+__CPROVER_ensures(__CPROVER_return_value != (spif_obj_t) NULL ||
+                  (ARRAY_UNCHANGED(self) && (vg_k >= (size_t) self->len || item == (spif_obj_t) NULL || !VA_MATCH_FIND)))
+__CPROVER_ensures(__CPROVER_return_value == (spif_obj_t) NULL ||
+                  (item != (spif_obj_t) NULL && self->len == OLD_LEN(self) - 1 && vg_exit <= (size_t) self->len &&
+                   (vg_k != vg_exit || (VA_MATCH_FIND && __CPROVER_return_value == vg_old_k)) &&
+                   (vg_k >= vg_exit || (!VA_MATCH_FIND && self->items[vg_k] == vg_old_k)) &&
+                   (vg_k < vg_exit || vg_k >= (size_t) self->len || self->items[vg_k] == vg_old_k2)))
+;
+void harness(void) { spif_array_t self; spif_obj_t item = nondet_ptr(); spif_array_remove(self, item); VERIF_CANARY(); }
+#endif
